@@ -129,6 +129,12 @@ func (c *Ctx) intrinsic(st *State, fn *ssa.Function, args []Value) (intrRes, boo
 		case "vhSelU64", "vhSelInt", "vhSelU8":
 			cnd, a, b := args[0].(*Term), args[1].(*Term), args[2].(*Term)
 			return done(tb.Ite(cnd, a, b))
+		case "vhAnd":
+			return done(tb.And(args[0].(*Term), args[1].(*Term)))
+		case "vhOr":
+			return done(tb.Or(args[0].(*Term), args[1].(*Term)))
+		case "vhImplies":
+			return done(tb.Implies(args[0].(*Term), args[1].(*Term)))
 		case "vhParam":
 			nm := concStr(args[0])
 			if v, ok := c.cfg.Params[nm]; ok {
